@@ -95,11 +95,25 @@ type op struct {
 	enc     bool        // output is encrypted (validate with the password)
 	stdin   bool        // the child reads in.pdf from stdin (cli stream)
 	noOut   bool        // no out.pdf in the directory (in-place operations)
+	fault   string      // "mktemp": creating the staging file is expected to fail (staging name > NAME_MAX)
+	outName string      // name of the existing explicit output (default out.pdf)
 	mode    os.FileMode // permission bits of the destination before the run (0 = 0640 for in.pdf, 0600 for out.pdf)
 	run     func(dir string) error
 }
 
 func p(dir, n string) string { return filepath.Join(dir, n) }
+
+// an output base name of n bytes.  The staging name is "." + base + ".tmp-" + up to 10 digits: with
+// NAME_MAX = 255 it cannot be created for bases of 249 bytes and more (ENAMETOOLONG); between 240 and 248
+// bytes it depends on the number of random digits (241 bytes: fails in ~98 % of the runs), so the sweep
+// uses 250 and 251 (always fails) and 200 (always succeeds).
+func long(n int) string { return strings.Repeat("o", n-4) + ".pdf" }
+
+func init() {
+	for _, n := range []int{200, 250, 251} {
+		pathID[long(n)] = 3
+	}
+}
 
 // no object streams / xref streams: the time stamps and the document ID stay plain text (see normPDF)
 func conf() *model.Configuration {
@@ -135,6 +149,14 @@ func ops() []op {
 			run: func(d string) error {
 				return pdfcpu.WriteReader(p(d, "out.pdf"), bytes.NewReader(bytes.Repeat([]byte("new content "), 3000)))
 			}},
+		// explicit existing outputs with long base names: the staging file next to them can (200) or cannot
+		// (241, 251) be created; a failing CreateTemp must be a clean error, never a fallback to the output itself
+		{name: "optimize-existing-long250", proto: "api:flag:2:2:3", dest: long(250), outName: long(250), fin: "ok", fault: "mktemp",
+			run: func(d string) error { return api.OptimizeFile(p(d, "in.pdf"), p(d, long(250)), conf()) }},
+		{name: "optimize-corrupt-existing-long251", proto: "api:flag:2:2:3", dest: long(251), outName: long(251), fin: "ok", fault: "mktemp", corrupt: true,
+			run: func(d string) error { return api.OptimizeFile(p(d, "in.pdf"), p(d, long(251)), conf()) }},
+		{name: "optimize-existing-long200", proto: "api:flag:2:2:3", dest: long(200), outName: long(200), fin: "ok",
+			run: func(d string) error { return api.OptimizeFile(p(d, "in.pdf"), p(d, long(200)), conf()) }},
 		{name: "encrypt-inplace", proto: "api:flag:2:2:-", dest: "in.pdf", fin: "ok", enc: true, noOut: true,
 			run: func(d string) error { return api.EncryptFile(p(d, "in.pdf"), "", encConf()) }},
 		{name: "optimize-corrupt-inplace", proto: "api:flag:2:2:-", dest: "in.pdf", fin: "err", corrupt: true, noOut: true,
@@ -161,6 +183,22 @@ func ops() []op {
 				ctx.Write.DirName = d
 				ctx.Write.FileName = "out.pdf"
 				return pdfcpu.WriteContext(ctx)
+			}},
+		{name: "mergecreate-existing-long251", proto: "api:flag:-:-:3", dest: long(251), outName: long(251), fin: "ok", fault: "mktemp",
+			run: func(d string) error {
+				return api.MergeCreateFile([]string{p(d, "in.pdf"), p(d, "in2.pdf")}, p(d, long(251)), false, conf())
+			}},
+		{name: "mergecreate-existing-long200", proto: "api:flag:-:-:3", dest: long(200), outName: long(200), fin: "ok",
+			run: func(d string) error {
+				return api.MergeCreateFile([]string{p(d, "in.pdf"), p(d, "in2.pdf")}, p(d, long(200)), false, conf())
+			}},
+		{name: "trim-existing-long250", proto: "api:flag:2:2:3", dest: long(250), outName: long(250), fin: "ok", fault: "mktemp",
+			run: func(d string) error { return api.TrimFile(p(d, "in.pdf"), p(d, long(250)), []string{"1"}, conf()) }},
+		{name: "trim-corrupt-existing-long200", proto: "api:flag:2:2:3", dest: long(200), outName: long(200), fin: "err", corrupt: true,
+			run: func(d string) error { return api.TrimFile(p(d, "in.pdf"), p(d, long(200)), []string{"1"}, conf()) }},
+		{name: "writereader-existing-long250", proto: "pdf:none:-:3", dest: long(250), outName: long(250), fin: "ok", fault: "mktemp",
+			run: func(d string) error {
+				return pdfcpu.WriteReader(p(d, long(250)), bytes.NewReader(bytes.Repeat([]byte("new content "), 3000)))
 			}},
 		{name: "rotate-existing-0400", proto: "api:flag:2:2:3", dest: "out.pdf", fin: "ok", mode: 0o400,
 			run: func(d string) error { return api.RotateFile(p(d, "in.pdf"), p(d, "out.pdf"), 90, nil, conf()) }},
@@ -232,7 +270,7 @@ func main() {
 	h := &harness{r: r, base: base}
 	h.prepare()
 	all := ops()
-	n := r.Pick(9, len(all))
+	n := r.Pick(12, len(all))
 	for _, o := range all[:n] {
 		h.runOp(o)
 	}
@@ -289,10 +327,14 @@ func (h *harness) initial(o op) map[string]entry {
 		m["in.pdf"] = entry{0o640, []byte("%PDF-1.7\nthis is not a pdf\n")}
 	}
 	if !o.noOut {
+		out := "out.pdf"
+		if o.outName != "" {
+			out = o.outName
+		}
 		if o.outPDF {
-			m["out.pdf"] = entry{0o600, h.small}
+			m[out] = entry{0o600, h.small}
 		} else {
-			m["out.pdf"] = entry{0o600, []byte("EXISTING OUTPUT, not a PDF")}
+			m[out] = entry{0o600, []byte("EXISTING OUTPUT, not a PDF")}
 		}
 	}
 	if o.mode != 0 {
@@ -707,34 +749,45 @@ func (h *harness) runOp(o op) {
 	// 1. recording
 	dir := h.mkdir(o, init)
 	log, exit, killed := h.strace(o, dir, "")
+	wantErr := o.fin == "err" || o.fault != ""
+	fault := "-"
+	if o.fault != "" {
+		fault = o.fault
+	}
 	wantExit := 0
-	if o.fin == "err" {
+	if wantErr {
 		wantExit = 3
 	}
-	if killed || exit != wantExit {
+	if killed || (exit != 0 && exit != 3) {
 		r.OracleFail("harness-recording-failed:"+o.name, map[string]any{"op": o.name}, fmt.Sprintf("exit=%d killed=%v log tail=%s", exit, killed, tail(log, 600)))
 		return
 	}
+	if exit != wantExit {
+		// e.g. an operation that must fail cleanly (staging file cannot be created) reported success:
+		// keep going, the trace oracle and the kill sweep below show what it did to the destination
+		r.OracleFail("operation-result-unexpected:"+o.name, map[string]any{"op": o.name},
+			fmt.Sprintf("exit=%d want=%d (0 = success, 3 = error)", exit, wantExit))
+	}
 	var ref []byte
-	if o.fin == "ok" {
+	if !wantErr {
 		ref, _ = os.ReadFile(p(dir, o.dest))
 	}
 	evs := parseLog(log)
 	abs := abstract(evs, dir, init, o.dest)
 	st := h.observe(o, dir, init, ref)
 	ctl := "ok"
-	if o.fin == "err" {
+	if wantErr {
 		ctl = "err"
 	}
 	r.Count("op:" + o.name)
-	r.Case("trace", []string{o.proto, minit, chunks, o.fin}, ctl+"|"+strings.Join(abs.skel, ";")+"|"+st.canon)
+	r.Case("trace", []string{o.proto, minit, chunks, o.fin, fault}, ctl+"|"+strings.Join(abs.skel, ";")+"|"+st.canon)
 	if len(abs.violation) > 0 {
 		r.OracleFail("writes-into-preexisting-file:"+o.name, map[string]any{"op": o.name}, strings.Join(abs.violation, "; "))
 	} else {
 		r.OracleOK()
 	}
 	want := "new"
-	if o.fin == "err" {
+	if wantErr {
 		want = "old"
 	}
 	if st.destTag != want || len(st.stray)+len(st.damaged)+len(st.missing) > 0 || strings.Contains(st.canon, "T") {
@@ -809,7 +862,7 @@ func (h *harness) runOp(o op) {
 		if !killed {
 			// the N-th call was not reached in this run (thread scheduling): a complete run
 			r.Count("kill-not-reached")
-			if exit != wantExit {
+			if exit != 0 && exit != 3 {
 				r.OracleFail("harness-kill-run-failed:"+o.name, input, fmt.Sprintf("exit=%d log tail=%s", exit, tail(log, 400)))
 			}
 			os.RemoveAll(dir)
@@ -823,7 +876,7 @@ func (h *harness) runOp(o op) {
 		switch {
 		case kst.destTag != "old" && kst.destTag != "new":
 			r.OracleFail("crash-leaves-destination-"+kst.destTag+":"+o.name, input, detail)
-		case o.fin == "err" && kst.destTag != "old":
+		case wantErr && kst.destTag != "old":
 			r.OracleFail("crash-publishes-failed-output:"+o.name, input, detail)
 		case len(kst.damaged)+len(kst.missing) > 0:
 			r.OracleFail("crash-damages-other-file:"+o.name, input, detail+fmt.Sprintf(" damaged=%v missing=%v", kst.damaged, kst.missing))
@@ -839,7 +892,7 @@ func (h *harness) runOp(o op) {
 			infl = "1"
 		}
 		// the kill lands on syscall entry or exit: the interrupted call may or may not have happened
-		r.Case("crash", []string{o.proto, minit, chunks, o.fin, strconv.Itoa(len(kabs.skel)), infl, kst.canon}, "match")
+		r.Case("crash", []string{o.proto, minit, chunks, o.fin, fault, strconv.Itoa(len(kabs.skel)), infl, kst.canon}, "match")
 		os.RemoveAll(dir)
 	}
 }
